@@ -77,6 +77,12 @@ def placeholder_items():
     for lit, r in extra_t:
         n += 1
         vs.append(Variant("T%d" % n, "tuple", [Field(tys[j]) for j in range(r)], [tos(lit)]))
+    # positional placeholders with TWO digits: {10} is the eleventh field, not the one after {1}
+    wide = ["u8", "i32", "usize", "u16", "i64"]
+    for lit, r in ((" ".join("{%d}" % q for q in range(12)), 12), ("{10}{2}{11}{1}{0}{3}{4}{5}{6}{7}{8}{9}", 12),
+                   (" ".join("{%d}" % q for q in reversed(range(13))), 13), ("{11:>4}|{10:03}|" + "".join("{%d}" % q for q in range(10)), 12)):
+        n += 1
+        vs.append(Variant("T%d" % n, "tuple", [Field(wide[j % 5]) for j in range(r)], [tos(lit)]))
     for i in range(0, len(vs), 8):
         items.append(Item("E", vs[i:i + 8], metas=[EM("prefix", "pre{fix}")] if False else []))
     return items
@@ -113,7 +119,7 @@ def build_corpus(tier, rng):
         vals = []
         for i, v in enumerate(it.variants):
             vals.append((i, [RR.SAMPLE[f.ty][0] for f in v.fields], "sample"))
-            ext = {"u8": "255u8", "String": 'String::from("{br}aces \\u{e9}")', "i32": "i32::MIN"}
+            ext = {"u8": "255u8", "String": 'String::from("{br}aces \\u{e9}")', "i32": "i32::MIN", "usize": "usize::MAX", "u16": "u16::MAX", "i64": "i64::MIN"}
             vals.append((i, [ext[f.ty] for f in v.fields], "extreme"))
             vals.append((i, ["Default::default()" for f in v.fields], "default"))
         c.meta[k]["vals"] = vals
